@@ -463,6 +463,19 @@ func (x *Exec) trSel(e *SExpr, env *TrEnv) *Term {
 			}
 		}
 	}
+	if e.Args[0].Kind == "id" {
+		if _, isBound := env.bound[e.Args[0].Name]; !isBound {
+			if _, inRepo := x.u.Pkgs[e.Args[0].Name]; !inRepo {
+				if lp, ok := x.u.libPkgs[e.Args[0].Name]; ok {
+					if _, isVar := x.lookupProgramVar(e.Args[0].Name, env); !isVar {
+						if t, ok := x.lookupGlobal(lp, e.Name, env); ok {
+							return t
+						}
+					}
+				}
+			}
+		}
+	}
 	if e.Args[0].Kind == "id" && e.Args[0].Name == "T" {
 		if _, isBound := env.bound["T"]; !isBound {
 			return V("T."+e.Name, SType)
@@ -629,6 +642,9 @@ func (x *Exec) trCall(e *SExpr, env *TrEnv) *Term {
 		// owned(b): the byte slice b does not share memory with data of the caller of the function under verification
 		t := x.trExpr(e.Args[0], env)
 		return Not(x.getAlias(t))
+	case "ptrAny":
+		// the interface value stored behind a *interface{} pointer
+		return Select(x.getSt(env.st, "P."+mangle(SAny), arraySort(SRef, SAny)), x.trExpr(e.Args[0], env))
 	case "unboxRef":
 		return mk("unbox_Ref", SRef, x.trExpr(e.Args[0], env))
 	case "unboxStr":
